@@ -159,11 +159,31 @@ def c18_runs(tier):
     return runs
 
 
+def c17_runs(tier):
+    th = tier == "thorough"
+    runs = [("plain", ["--mode", "seq", "--mtu", "1500", "--wifi", "0"]), ("plain", ["--mode", "seq", "--mtu", "576", "--wifi", "1"])]
+    np1, np2 = 4, 10
+    for i in range(np1):
+        runs.append(("tsanabi", ["--mode", "conc", "--a", "1", "--depth", "3" if th else "2", "--part", str(i), "--nparts", str(np1)]))
+    for i in range(np2):
+        runs.append(("tsanabi", ["--mode", "conc", "--a", "2", "--depth", "2" if th else "1", "--part", str(i), "--nparts", str(np2)]))
+    return runs
+
+
 EMIT = {"main": {"sources": MC + ["checks/emit.c"], "modes": ["c06", "c10"]}}
 OBS = {"main": {"sources": MC + ["checks/obs.c"], "modes": ["c07", "c19"]}}
 PROTO = {"main": {"sources": MC + ["checks/proto.c"], "modes": ["c02", "c03", "c09"]}}
 
 PROPS = {
+    "C17": {
+        "engine": "E3+E6",
+        "builds": {"plain": {"sources": MC + ["checks/c17.c"], "modes": ["seq"]},
+                   "tsanabi": {"flavour": "tsanabi", "sources": ["mc/world.c", "mc/wire.c", "mc/report.c", "mc/sigma.c", "mc/tsan_hooks.c", "checks/c17.c"], "modes": ["conc"]}},
+        "runs": c17_runs, "level": "model_checking", "timeout": {"quick": 1200, "thorough": 3400},
+        "technique": "sequential clause: product exploration of (two-interface world, solo world A, solo world B) triples to closure; concurrent clause: preemption-bounded enumeration of all schedules of two interface threads at compiler-inserted memory-access granularity (core built with -fsanitize=thread and linked against harness hooks instead of the TSan runtime), with per-interface solo-trace comparison, allocation ledger and a happens-before-free race detector",
+        "assumptions": ["sequentially consistent interleavings of the accesses as compiled at -O1; weak-memory reorderings not modelled (the race clause does not depend on them)",
+                        "preemption bound 2 (3 in the thorough tier) for pairs of single-frame histories, 1 (2) for pairs of histories of length <= 2"],
+    },
     "C18": {
         "engine": "E5+E3",
         "builds": {"san": {"flavour": "san", "sources": SANMC + ["mc/oracles.c", "checks/c18.c"], "modes": ["faults"]},
